@@ -103,6 +103,7 @@ type Exec struct {
 	coverBlocks    bool
 	coverPCs       map[*ssa.BasicBlock][]*Term
 	coverOrder     []*ssa.BasicBlock
+	usedSpecs      map[string]*FuncSpec // callee contracts applied in this unit
 	autoAcq        bool
 	inFuncDispatch bool
 	givenVals      map[string]*Term
